@@ -121,6 +121,7 @@ func scenarioC10(c *Ctx) {
 	}
 	_ = json.Marshal
 	_ = requests.DefaultRequest{}
+	cases = append(cases, reinitCases(c, w, "C10")...)
 	runCases(c, cases)
 	c.Notes["histories"] = len(cases)
 }
